@@ -119,3 +119,116 @@ func lockupGenesisAccumulationRules(c *rules.Ctx) {
 	c.CallArg(K+"InitializeAllLocks", "lockupkeeper.Keeper.writeDurationValuesToAccumTree", 2, "elem(phi(list(),append(#self,list(elem(elem(locks).Coins).Denom))))", "each collected denom's entries are written to that denom's accumulation store")
 	c.CallArg(K+"InitializeAllLocks", "lockupkeeper.Keeper.writeDurationValuesToAccumTree", 3, "lookup(_, elem(phi(list(),append(#self,list(elem(elem(locks).Coins).Denom)))))", "…from the map collected for that same denom")
 }
+
+// poolmanagerQueryRules (C05, round 6): the Estimate* queries — the place the property is observed through — hand the
+// request's routes and coin to the taker-fee-including estimator of the matching direction and report its result.
+func poolmanagerQueryRules(c *rules.Ctx) {
+	const Q = "x/poolmanager/client.Querier."
+	const EI = "poolmanager.Keeper.MultihopEstimateOutGivenExactAmountIn"
+	const EO = "poolmanager.Keeper.MultihopEstimateInGivenExactAmountOut"
+	type q struct{ fn, est, routes, coin, field string }
+	for _, v := range []q{
+		{"EstimateSwapExactAmountIn", EI, "req.Routes", "sdk.ParseCoinNormalized(req.TokenIn)#0", "TokenOutAmount"},
+		{"EstimateSwapExactAmountInWithPrimitiveTypes", EI, "phi(nil,append(#self,list(with:TokenOutDenom(with:PoolId(zero:SwapAmountInRoute(),elem(req.RoutesPoolId)),elem(req.RoutesTokenOutDenom)))))", "sdk.ParseCoinNormalized(req.TokenIn)#0", "TokenOutAmount"},
+		{"EstimateSwapExactAmountOut", EO, "req.Routes", "sdk.ParseCoinNormalized(req.TokenOut)#0", "TokenInAmount"},
+		{"EstimateSwapExactAmountOutWithPrimitiveTypes", EO, "phi(nil,append(#self,list(with:TokenInDenom(with:PoolId(zero:SwapAmountOutRoute(),elem(req.RoutesPoolId)),elem(req.RoutesTokenInDenom)))))", "sdk.ParseCoinNormalized(req.TokenOut)#0", "TokenInAmount"},
+	} {
+		c.CallArg(Q+v.fn, v.est, 2, v.routes, "the estimate runs over the routes of the request (every (pool id, denom) pair, in order)")
+		c.CallArg(Q+v.fn, v.est, 3, v.coin, "…for the request's coin")
+		c.Returns(Q+v.fn, 0, "has(with:"+v.field+"(_, "+v.est+"(...)#0)) | nil", "the response carries the estimator's amount", "")
+	}
+	c.CallArg("x/poolmanager.Keeper.MultihopEstimateOutGivenExactAmountIn", "poolmanager.Keeper.multihopEstimateOutGivenExactAmountInInternal", 4, "true", "the public exact-in estimator deducts the taker fee, as the execution does")
+	c.CallArg("x/poolmanager.Keeper.MultihopEstimateOutGivenExactAmountInNoTakerFee", "poolmanager.Keeper.multihopEstimateOutGivenExactAmountInInternal", 4, "false", "only the explicitly fee-less variant skips it")
+	c.WhoMayCall("x/poolmanager.Keeper.MultihopEstimateOutGivenExactAmountInNoTakerFee", []string{"poolmanagerclient.Querier.EstimateTradeBasedOnPriceImpact", "protorevkeeper.Keeper.EstimateMultihopProfit", "protorevkeeper.Keeper.FindMaxProfitForRoute"}, "the fee-less estimator is not used by the swap-estimate queries")
+}
+
+// twapQueryRules (C10, round 6): the queries hand the request's interval to the keeper, and the two-denom record
+// lookup used by the end-block update orders the denoms like the writer of the most-recent index.
+func twapQueryRules(c *rules.Ctx) {
+	const Q = "x/twap/client.Querier."
+	for _, v := range [][2]string{{"ArithmeticTwap", "twap.Keeper.GetArithmeticTwap"}, {"GeometricTwap", "twap.Keeper.GetGeometricTwap"}} {
+		c.CallArg(Q+v[0], v[1], 6, "phi(req.EndTime, addr:complit()) | req.EndTime", "the end of the interval is the request's end time (block time only when none was given)")
+		c.CallArg(Q+v[0], v[1], 5, "req.StartTime", "the start of the interval is the request's")
+		c.CallArg(Q+v[0], v[1], 2, "req.PoolId", "for the requested pool")
+		c.CallArg(Q+v[0], v[1], 3, "req.BaseAsset", "base asset as requested")
+		c.CallArg(Q+v[0], v[1], 4, "req.QuoteAsset", "quote asset as requested")
+	}
+	for _, v := range [][2]string{{"ArithmeticTwapToNow", "twap.Keeper.GetArithmeticTwapToNow"}, {"GeometricTwapToNow", "twap.Keeper.GetGeometricTwapToNow"}} {
+		c.CallArg(Q+v[0], v[1], 5, "req.StartTime", "to-now queries start at the request's start time")
+		c.CallArg(Q+v[0], v[1], 3, "req.BaseAsset", "base asset as requested")
+		c.CallArg(Q+v[0], v[1], 4, "req.QuoteAsset", "quote asset as requested")
+	}
+	const GA = "x/twap.Keeper.GetAllMostRecentRecordsForPoolWithDenoms"
+	c.Let("ORD", "twaptypes.LexicographicalOrderDenoms(idx(denoms,0),idx(denoms,1))")
+	c.CallArg(GA, "twaptypes.GetMostRecentTwapForPool", 2, "{ORD}#0", "the direct lookup of a two-asset pool's record uses the denoms in the canonical (sorted) order the record was stored under")
+	c.CallArg(GA, "twaptypes.GetMostRecentTwapForPool", 3, "{ORD}#1", "…both of them")
+	c.CallArg(GA, "twaptypes.GetMostRecentTwapForPool", 1, "poolId", "…of the requested pool")
+}
+
+// lockupKeyRules (C06, round 6): the duration component of every reference key is the full-resolution duration.
+func lockupKeyRules(c *rules.Ctx) {
+	c.Returns("x/lockup/keeper.getDurationKey", 0, "lockupkeeper.combineKeys(@lockuptypes.KeyPrefixDuration, sdk.Uint64ToBigEndian(phi(duration,0)))", "the duration key encodes the duration itself in nanoseconds (negative clamped to 0) — no coarser unit, so distinct durations never share index entries", "")
+}
+
+// clScalingMigrationRules (C01, C08, C15; round 6): the one-off migrations multiply the accumulator value, every
+// position snapshot and every tick tracker by the same per-unit-of-liquidity factor, and persist the objects they scaled.
+func clScalingMigrationRules(c *rules.Ctx) {
+	const K = "x/concentrated-liquidity.Keeper."
+	for _, fn := range []string{"MigrateSpreadFactorAccumulatorToScalingFactor", "MigrateIncentivesAccumulatorToScalingFactor"} {
+		c.CallArgN(K+fn, "sdk.DecCoins.MulDecTruncate", 1, "@cl.perUnitLiqScalingFactor", "accumulator value, position snapshots and tick trackers are all scaled by the same per-unit-of-liquidity factor", 3, "")
+		c.CallArg(K+fn, "accum.AccumulatorObject.SetPositionIntervalAccumulation", 2, "sdk.DecCoins.MulDecTruncate(accum.AccumulatorObject.GetPosition(...)#0.AccumValuePerShare, @cl.perUnitLiqScalingFactor)", "a position's snapshot becomes its old snapshot × the factor (a late joiner keeps owning only later growth)")
+		c.CallArg(K+fn, "accum.OverwriteAccumulatorUnsafe", 2, "sdk.DecCoins.MulDecTruncate(accum.AccumulatorObject.GetValue(_), @cl.perUnitLiqScalingFactor)", "the accumulator value becomes its old value × the factor")
+	}
+	c.StoredObjectIsPassed(K+"MigrateSpreadFactorAccumulatorToScalingFactor", "SpreadRewardGrowthOppositeDirectionOfLastTraversal", "cl.Keeper.SetTickInfo", 4, "the tick info written back is the one whose spread-reward tracker was scaled")
+}
+
+// cfmmUsedAmountRules (C02, C04): the amount an exact-ratio join uses of each non-limiting asset is rounded UP — the
+// same rounding the keeper applies to the amounts it transfers, so the pool records what it receives.
+func cfmmUsedAmountRules(c *rules.Ctx) {
+	c.HasCall("x/gamm/pool-models/internal/cfmm_common.MaximalExactRatioJoin", "sdkmath.Int.Sub", []string{"elem(tokensIn).Amount", "sdkmath.LegacyDec.TruncateInt(sdkmath.LegacyDec.Ceil(_))"}, false, "proportional join: the amount used of each coin is ceiled (the remainder returned is rounded down)", "")
+}
+
+// balancerShareBookRules (C02, round 6): the pool record's share total follows every exit / join of the model.
+func balancerShareBookRules(c *rules.Ctx) {
+	const B = "x/gamm/pool-models/balancer.Pool."
+	c.MustStore(B+"exitPool", "TotalShares", "sdk.NewCoin(p.TotalShares.Denom, sdkmath.Int.Sub(balancer.Pool.GetTotalShares(p), exitingShares))", "every successful exit lowers the recorded share total by the exiting shares (also when the payout truncates to nothing — the keeper burns the shares regardless)")
+	c.CheckedCall(B+"exitPool", "balancer.Pool.UpdatePoolAssetBalances", []string{"p", "sdk.Coins.Sub(balancer.Pool.GetTotalPoolLiquidity(p,ctx), exitingCoins)"}, "…and the recorded reserves by the exiting coins", "")
+	c.CheckedCall(B+"ExitPool", "balancer.Pool.exitPool", []string{"p", "ctx", "_", "exitingShares"}, "ExitPool books the exit it calculated", "")
+}
+
+// clCrossTickRules (C01, C07, C08; round 6): whenever accumulators are being updated, crossing a tick flips that
+// tick's trackers — whatever the tick's net liquidity (a tick shared by two equal positions has net 0 and gross > 0).
+func clCrossTickRules(c *rules.Ctx) {
+	const X = "x/concentrated-liquidity.Keeper.swapCrossTickLogic"
+	c.ReachedWhen(X, "cl.Keeper.crossTick", "updateAccumulators", "the trackers of every crossed tick are flipped when accumulators are being updated (no shortcut on the tick's net liquidity)")
+	c.ReachedWhen(X, "cl.Keeper.updateGivenPoolUptimeAccumulatorsToNow", "updateAccumulators", "…after the uptime accumulators were brought up to now")
+}
+
+// clPoolWriteRules (C03; round 6): the pool record takes over exactly the state the swap computed.
+func clPoolWriteRules(c *rules.Ctx) {
+	const A = "x/concentrated-liquidity/model.Pool.ApplySwap"
+	c.StoreField(A, "CurrentSqrtPrice", "newCurrentSqrtPrice", "the stored sqrt price is the computed one at full (36-decimal) precision")
+	c.StoreField(A, "CurrentTick", "newCurrentTick", "the stored tick is the computed one")
+	c.StoreField(A, "CurrentTickLiquidity", "newLiquidity", "the stored liquidity is the computed one")
+}
+
+// spotPriceRules (C13, C14; round 6): the spot-price entry points chop to the 18-decimal grid before rounding to
+// significant figures, and bound the result by the 18-decimal spot-price range.
+func spotPriceRules(c *rules.Ctx) {
+	const G = "x/gamm/keeper.Keeper.CalculateSpotPrice"
+	c.CallArg(G, "osmomath.BigDec.ChopPrecisionMut", 1, "18", "the raw spot price is chopped to 18 decimals (the Dec grid), not to the significant-figure exponent")
+	c.CallArg(G, "osmomath.SigFigRound", 1, "@gammtypes.SpotPriceSigFigs", "…and then rounded to the spot-price significant figures")
+	const K = "x/concentrated-liquidity.Keeper.CalculateSpotPrice"
+	c.Let("CLSP", "cltypes.ConcentratedPoolExtension.SpotPrice(cl.Keeper.getPoolById(k,ctx,poolId)#0,ctx,quoteAssetDenom,baseAssetDenom)#0")
+	c.FailsWhen(K, "lt({CLSP}, @cltypes.MinSpotPriceBigDec)", "a spot price below the 18-decimal minimum (10^-12) is an error, also when the pool itself supports lower prices", rules.GuardOpt{})
+	c.FailsWhen(K, "gt({CLSP}, @cltypes.MaxSpotPriceBigDec)", "a spot price above the maximum is an error", rules.GuardOpt{})
+	c.BranchOn(K, "lt({CLSP}, @cltypes.MinSpotPriceBigDec)", []string{"lt({CLSP}, @cltypes.MinSpotPriceV2)", "le({CLSP}, @cltypes.MinSpotPriceV2)"}, "the lower bound compared is the 18-decimal minimum")
+}
+
+// epochsHookContainmentRules (C17, C18; round 6): inside the panic-catching wrapper the subscriber receives the
+// wrapper's cache context — a failing mint epoch is rolled back as a whole.
+func epochsHookContainmentRules(c *rules.Ctx) {
+	const PC = "x/epochs/types.panicCatchingEpochHook"
+	c.HasCall(PC, "osmoutils.ApplyFuncIfNoError", []string{"ctx", "closure:epochstypes.panicCatchingEpochHook$1(hookFn,epochIdentifier,epochNumber)"}, true, "each subscriber call is wrapped by the cache-context helper", "")
+	c.ApplyFuncClosures("x/epochs/types", 1, "inside the wrapper the subscriber receives the wrapper's (cache) context, not a captured one")
+}
